@@ -220,15 +220,18 @@ func SchemaCells() []Cell {
 					addSchema(s, "Top", &spec.Schema{Type: "object", Add: Materialise(s, k, form, null, "K")})
 					out = append(out, NewCell("schema", map[string]string{"pos": "addprops", "kind": k.Name, "null": b01(null), "form": form}, s))
 				}
-				// oneOf member
-				{
+				// oneOf member (the free-form object is left out: it makes every object document valid for two
+				// variants, so the schema is ambiguous by construction)
+				if k.Name != "object-empty" {
 					s, _, _ := Base()
 					addSchema(s, "Other", spec.Obj(spec.P("z", spec.T("string"))).Req("z"))
 					addSchema(s, "Top", &spec.Schema{OneOf: []*spec.Schema{Materialise(s, k, form, null, "K"), spec.RefTo("Other")}})
 					out = append(out, NewCell("schema", map[string]string{"pos": "oneof", "kind": k.Name, "null": b01(null), "form": form}, s))
 				}
 				// allOf member (object-like kinds only)
-				if strings.HasPrefix(k.Name, "object") || strings.HasPrefix(k.Name, "map") || strings.HasPrefix(k.Name, "allOf") {
+				// map<ref> is left out: under allOf every member sees the whole document, so a typed map member
+				// whose value schema is an object makes the sibling string property z unsatisfiable
+				if (strings.HasPrefix(k.Name, "object") || strings.HasPrefix(k.Name, "map") || strings.HasPrefix(k.Name, "allOf")) && k.Name != "map<ref>" {
 					for _, first := range bools {
 						s, _, _ := Base()
 						m := Materialise(s, k, form, null, "K")
